@@ -63,6 +63,14 @@ def graph_items(prop, tier, seed, oracles, *, max_mult_q=1, opts=None, tags=(), 
             add(n, e, nm, std_layouts(n, tier, seed)[:3])
             if noop:
                 add(n, e + [(0, 0, True, 'noop')], nm + '+noop-self', std_layouts(n, tier, seed)[:3])
+    if not weak_obs:
+        # probing variant: between the drops, every object is upgraded through a Weak and the temporary handle dropped
+        # again (a non-last drop: runs the trace at moments the plain drop orders never reach)
+        weak_obs = True
+        for nm, e in F.named_shapes(3).items():
+            add(3, e, nm + ' +probes', std_layouts(3, tier, seed)[:2])
+        for nm, e in F.named_shapes(2).items():
+            add(2, e, nm + ' +probes', std_layouts(2, tier, seed)[:2])
     return items
 
 
@@ -297,12 +305,12 @@ def vac_paths(*needed):
 
 
 BOUNDS_GRAPH = {
-    'quick': {'objects': 'N<=2 complete (held<=1 per ordered pair, self edges: unrecorded / recorded through a clone / recorded through the same handle), N=3 shapes with <=3 edges, named N=3 shapes (ring, ring+chord, clique, ring+tail, ring+self)',
-              'history': 'build phase, then every order of dropping the named program handles; oracles after every operation and inside every destructor',
+    'quick': {'objects': 'N<=2 complete (held<=1 per ordered pair; self edges: unrecorded / recorded through a clone / recorded through the same handle with a stored handle / upstream\'s no-effect same-handle adoption without a stored handle where the property allows it); N=3 shapes with <=3 edges; named N=3 shapes (ring, ring+chord, clique, ring+tail, ring+self, outside owner of a ring, ring whose member adopted a leaf, rings whose members all self-adopt + leaf); 8 shapes with doubled (parallel) edges',
+              'history': 'build phase, then every order of dropping the named program handles; adopt/unadopt histories: owner records m<=2 adoptions of a target (alone, in a ring, ring with the owner, itself), then u<=m+1 unadopts with or without giving the handle up, a non-last handle of every object dropped, then every drop order; oracles after every operation and inside every destructor',
               'counters': 'extra program-held strong handles per object e_j (and Weak w_j where used): symbolic 64-bit, decided by z3',
               'layouts': 'insertion order, reverse rank order, 2 seeded rank orders', 'loop_unroll': 64},
     'thorough': {'objects': 'N<=2 with held<=2, N=3 with <=4 edges incl. self edges, named N=3 and N=4 shapes (two rings sharing a member)',
-                 'history': 'as quick', 'counters': 'symbolic 64-bit', 'layouts': 'up to 12 rank orders', 'loop_unroll': 64}}
+                 'history': 'as quick with m<=3', 'counters': 'symbolic 64-bit', 'layouts': 'up to 12 rank orders', 'loop_unroll': 64}}
 OUTSIDE = ['N>4 objects', 'more than 2 parallel handles per ordered pair', 'allocation failure', 'unsized T / Pin', 'independent per-table iteration orders (except where ForkLayout is used)', 'behaviour of hashbrown/core/alloc themselves']
 
 
@@ -325,7 +333,13 @@ PROPS['C02'] = dict(items=items_C02, bounds=BOUNDS_GRAPH, outside=OUTSIDE, vacui
 
 
 def items_C03(tier, seed, P):
-    return graph_items('C03', tier, seed, {'C03'}, recorded_only=False) + mult_items('C03', tier, seed, {'C03'}) + history_items('C03', tier, seed, {'C03'})
+    its = graph_items('C03', tier, seed, {'C03'}, recorded_only=False) + mult_items('C03', tier, seed, {'C03'}) + history_items('C03', tier, seed, {'C03'})
+    # a member destructor panics (caught): the orphaned group is still destroyed in full by that drop
+    for it in panic_weak_items('C03', tier, seed):
+        it['oracles'] = {'C03'}
+        it['opts'] = {'panics_ok': True}
+        its.append(it)
+    return its
 
 
 PROPS['C03'] = dict(items=items_C03, bounds=BOUNDS_GRAPH, outside=OUTSIDE, vacuity=vac_paths('dtor', 'multi_destroy_ops'), replay_oracles=['C03'])
@@ -830,6 +844,25 @@ def items_C12(tier, seed, P):
         'raw-roundtrip': lambda h: [{'op': 'into_raw', 'h': h, 'as': 'rw'}, {'op': 'from_raw', 'r': 'rw', 'as': h}],
         'inc-dec': lambda h: [{'op': 'as_ptr', 'h': h, 'as': 'rp'}, {'op': 'inc_strong', 'r': 'rp'}, {'op': 'strong_count', 'h': h}, {'op': 'dec_strong', 'r': 'rp'}],
     }
+    # mutual adoption with unequal multiplicities; the peer gives up its handles without unadopt (allowed), so the object
+    # has a sole strong handle although it is recorded as adopted
+    for (e, nm, takes) in [([R(0, 1), R(1, 0), R(1, 0)], 't=>x, x=>t x2; x gives up both', 2), ([R(0, 1), R(0, 1), R(1, 0)], 't=>x x2, x=>t; x gives up its handle', 1)]:
+        for an in ('try_unwrap', 'try_unwrap+weak', 'make_mut+weak'):
+            # the object that is unwrapped / stolen has exactly one strong handle (otherwise the call is a no-op and the stale
+            # record alone decides, which is C13's subject); its peer may be held any number of times
+            base = F.build_ops(2, e, extras=False, wextras=True)
+            base.insert(2, {'op': 'extras', 'h': H(1), 'n': 'e1'})
+            for k in range(takes):
+                base += [{'op': 'take', 'via': H(1), 'slot': 0, 'as': 'g%d' % k}, {'op': 'drop', 'h': 'g%d' % k}]
+            base += apis[an](H(0))
+            for tail in ([{'op': 'clone', 'h': H(1), 'as': 'cx'}, {'op': 'drop', 'h': 'cx'}, {'op': 'drop', 'h': H(1)}], [{'op': 'drop', 'h': H(1)}]):
+                ops = list(base) + tail
+                ops.append({'op': 'drop_any', 'h': 'res'} if an.startswith('try_unwrap') else {'op': 'drop', 'h': H(0)})
+                if 'weak' in an:
+                    ops.append({'op': 'wdrop', 'w': 'wk'})
+                items.append(dict(prop='C12', name='%s %s then %d ops' % (nm, an, len(tail)), script={'ops': ops}, sym=True,
+                                  oracles={'C12', 'C08', 'C04'}, accept_props=['C12', 'C08', 'C04'], relabel=True, ub_prop='C12', tags=['stale'],
+                                  opts={'tables_exact': False, 'panics_ok': False, 'expect_all_freed': True, 'stale': True}, layouts=std_layouts(2, tier, seed)[:4]))
     for (n, e, nm) in sh:
         for tgt in range(n):
             for an, mk in apis.items():
